@@ -271,7 +271,10 @@ def r5(ctx):
     # Err edge of decode -> InvalidBodyEncoding ; None of encoding_from_whatwg_label -> InvalidBodyEncoding
     kinds = {}
     for eb, i, s in err_sites(b):
+        direct = {a_ for a_, s_ in b.control_deps().get(eb, ())}
         for pl, vals, other, a in discr_guard_variants(b, eb):
+            if a not in direct:
+                continue
             sl = b.slice([pl["local"]])
             if sl.has_call(r"encoding::Encoding::decode$") and not sl.has_call(r"query_string_to_normalized_map$"):
                 kinds.setdefault("decode", set()).add(s["rv"]["variant"])
@@ -294,11 +297,13 @@ def r5(ctx):
     kv, _ = const_str_of(c, g[1]["args"][1])
     if kv != "content-type":
         yield VIOL("C12-R5", "content-type/header-name", "content type read from header %r" % kv, where=c.span_of_block(g[0]))
-    eqs = [(bi, t) for bi, t in cmp_calls(c, r"PartialEq::(eq|ne)$") if "charset" in (c.slice_op(t["args"][0]).const_values() + c.slice_op(t["args"][1]).const_values())]
+    eqs = []
+    for cc in [c] + ctx.facts.find_bodies("^" + re.escape(CTC) + r"::\{closure#\d+\}"):
+        eqs += [(cc, bi, t) for bi, t in cmp_calls(cc, r"PartialEq::(eq|ne)$") if "charset" in (cc.slice_op(t["args"][0]).const_values() + cc.slice_op(t["args"][1]).const_values())]
     if len(eqs) != 1:
         yield VIOL("C12-R5", "content-type/charset-compare", "expected one comparison with \"charset\", found %d" % len(eqs), where=loc(c.j["span"]))
     else:
-        bi, t = eqs[0]
+        c, bi, t = eqs[0]
         sls = c.slice_op(t["args"][0]), c.slice_op(t["args"][1])
         if not any(s.has_call(r"str>::to_lowercase$|to_ascii_lowercase$|eq_ignore_ascii_case$") for s in sls):
             yield VIOL("C12-R5", "content-type/charset-case", "the charset parameter name is compared case-sensitively (`Charset=` would be ignored and the body decoded as UTF-8)", where=c.span_of_block(bi))
